@@ -177,6 +177,8 @@ async fn main() -> Result<(), Terminator> {
     }
 }
 
+const UPSTREAM_SETUP_TIMEOUT: std::time::Duration = std::time::Duration::from_secs(60);
+
 async fn process_request(ctx: ContextRef, state: Arc<GlobalState>) {
     let connector = {
         let ctx = &ctx.clone().read_owned().await;
@@ -222,7 +224,22 @@ async fn process_request(ctx: ContextRef, state: Arc<GlobalState>) {
         .set_state(ContextState::ServerConnecting)
         .set_connector(connector.name().to_owned());
     let props = ctx.read().await.props().clone();
-    if let Err(e) = connector.connect(state.clone(), ctx.clone()).await {
+    // Setting the upstream path up is bounded: an upstream proxy that accepts the connection and never answers the
+    // request (or a chain of hops that never ends, e.g. a connector that points back at one of this proxy's own
+    // listeners) would keep the request - client socket, upstream socket, task - for ever; nothing watches the
+    // client while the connector runs.
+    let connected = tokio::time::timeout(
+        UPSTREAM_SETUP_TIMEOUT,
+        connector.connect(state.clone(), ctx.clone()),
+    )
+    .await
+    .unwrap_or_else(|_| {
+        Err(easy_error::err_msg(format!(
+            "upstream not ready within {} seconds",
+            UPSTREAM_SETUP_TIMEOUT.as_secs()
+        )))
+    });
+    if let Err(e) = connected {
         warn!(
             "failed to connect to upstream: {} cause: {:?} \nctx: {}",
             e,
